@@ -125,9 +125,9 @@ def run(ck):
         ck.rng.shuffle(order)
         for n, ci in enumerate(order):
             rec = table[ci]
-            # quick: one variant per configuration (rotating with the seed), all four for the well-formed layouts and the spec's leads
+            # quick: two variants per configuration (rotating with the seed), all four for the well-formed layouts and the spec's leads
             full = ck.thorough or rec["e"]["category"] in ("fresh", "legacy", "migrated") or not rec["e"]["holds"]
-            vs = variants if full else [variants[(n + ck.seed) % 4]]
+            vs = variants if full else [variants[(n + ck.seed) % 4], variants[(n + ck.seed + 1) % 4]]
             for style, wal in vs:
                 runs.append((rec, dict(rec["c"], style=style, wal=wal)))
     outs = ck.drive(b, [], input_lines=[c for _, c in runs], timeout=1800)
@@ -200,7 +200,7 @@ def run(ck):
     if leads != reproduced:
         ck.notes.append("%d of %d configurations on which the transcription violates the property did not do so in the real code" % (leads - reproduced, leads))
     ck.rule = ("TLC enumerates all 192 configurations (16 subsets of the v1 tables x index named idx_hash present/absent (on another table when key_trackers is absent) "
-               "x user_version 0/1/2 x with/without rows); each is materialised as a real file with the statements of the repository's migration file in 1 of the 4 "
+               "x user_version 0/1/2 x with/without rows); each is materialised as a real file with the statements of the repository's migration file in 2 of the 4 "
                "variants {DDL as in the migration file, compact DDL of the previous implementation} x {created through the code's WAL connection string, plain} "
                "(all 4 for fresh / legacy / migrated layouts and in the thorough tier), dumped, opened with sqlite3.New(), read through the store API when it opened, dumped again; the abstracted observation is judged "
                "by the predicate of the spec in TLC; non-trivial = everything but the plain empty file; distinct = distinct (configuration, variant)")
